@@ -11,7 +11,7 @@ import warnings
 from fractions import Fraction
 
 from harness.common import Run, SRC, coq_Q, coq_Z, coq_bool, coq_list, coq_string, frac
-from harness.translate import pysym, pyvalid
+from harness.translate import c18_gen, pysym, pyvalid
 from harness.translate.pysym import Emit, Untranslatable, definition, dotted
 
 META = dict(
@@ -19,7 +19,9 @@ META = dict(
               "crash conditions of _run, post-processing on lists over Q/Z); requirement rows, key lists, constants, beta "
               "parameters, the precision loop and the value of rounding_precision before it regenerated from the Python AST and "
               "proved equal to the model; exhaustive decision-table and exact-rational list correspondence against the running "
-              "code inside Coq (vm_compute)",
+              "code inside Coq (vm_compute); the generation (draws of the individual parameters, visit ages of both visit types, rounding, "
+              "de-duplication, sort) as an interpreter of a program regenerated from the AST, parameterised by the arithmetic, re-executed in "
+              "binary64 inside Coq on the recorded tape of numpy.random.normal of every completed call (bit for bit)",
     level_text="Unbounded theorems: beta parameters positive after the clamp, clip range, values in [0,1] (beta.rvs as a stated oracle), "
                "the rounding precision is total (0..3 for every spacing, 3 below 0.001: leaspy 6d6bb6f) and for every spacing the ages "
                "are rounded to it, strictly increasing after rounding/keep-first de-duplication/sorting, every requested visit present "
@@ -27,7 +29,10 @@ META = dict(
                "refutation is now the theorem C18_min_spacing_runs); individuals exact (ids '0'..'n-1' / table ids, one parameter row "
                "each), a LeaspyAlgoInputError can only come from the constructor, exact characterisation of the calls that complete "
                "(C18_completes_iff: accepted + runnable_core; C18_accepted_runs stays refuted by the remaining families F10b-i), "
-               "visit loop termination/divergence.",
+               "visit loop termination/divergence.  Generation as a function of a tape of draws (every arithmetic, every tape): requested number of "
+               "individuals, ages = integers in units of the chosen precision, strictly increasing, consecutive ones >= one unit apart, exactly the "
+               "rounded generated ages / the table's ages per ID whatever the row order (C18_generation_random / _table / _table_accepted / "
+               "_age_units, C18_table_row_order_irrelevant), draws consumed (4+S)n + later visits resp. (2+S)*n_groups.",
     level_note="Trusted: Coq kernel; python-ast translators (pysym, pyvalid); pandas round/duplicated/groupby, numpy RNG, scipy beta.rvs, "
                "leaspy estimate (the model values are taken from the implementation); float arithmetic compared with stated tolerances; "
                "NaN/inf parameters and mixed-type ID columns are outside the model.",
@@ -45,11 +50,13 @@ OBLIGATIONS = [
     "C18_visits_increasing", "C18_visits_terminate", "C18_visits_diverge_refuted",
     "C18_tie_rows", "C18_tie_keys", "C18_tie_final", "C18_tie_precision", "C18_tie_precision_init", "C18_tie_beta", "C18_tie_adj_var",
     "C18_tie_constants", "C18_tie_options", "C18_tie_order",
+    "C18_ages_wellformed_meaning", "C18_generation_random", "C18_generation_table", "C18_generation_table_accepted", "C18_table_row_order_irrelevant",
+    "C18_generation_age_units", "C18_draws_random_design_only_refuted", "C18_tie_generation",
 ]
 
 HEADER = """(* REGENERATED on every run from $VERIF_REPO/src/leaspy by harness/props/c18.py — do not edit *)
 From Coq Require Import ZArith QArith Qround Bool List String.
-From Leaspy Require Import Base.QAux Api.Simulate.
+From Leaspy Require Import Base.QAux Api.Simulate Api.SimulateGen.
 Import ListNotations.
 """
 
@@ -308,9 +315,12 @@ def translate(run: Run) -> bool:
         # _check_features: known shape (its decision is tied by exhaustive correspondence)
         if _shape(_body(M["_check_features"])) != CHECK_FEATURES_SHAPE:
             raise Untranslatable("_check_features shape:\n" + "\n".join(_shape(_body(M["_check_features"]))))
+        # the generation statements (draws of the individual parameters, visit ages, pipeline order)
+        out.append(c18_gen.translate_generation(M, base["_run"]))
         run.gen("GenC18", "\n".join(out))
         run.trusted.append("translator harness/translate/pyvalid.py + pysym.py + harness/props/c18.py (python ast -> requirement rows, key lists, "
-                           "constants, beta parameters, precision loop and the value bound before it, statement order of simulate.py / base.py)")
+                           "constants, beta parameters, precision loop and the value bound before it, statement order of simulate.py / base.py); "
+                           "harness/translate/c18_gen.py (generation statements -> gen_prog_src); Coq primitive floats = IEEE binary64 (SimulateGenFloat.v)")
         return True
     except (Untranslatable, KeyError, OSError, SyntaxError, IndexError, AttributeError) as e:
         run.broken("translate:GenC18", f"{type(e).__name__}: {e}", kind="broken-translation")
@@ -515,6 +525,7 @@ class Recorder:
         import leaspy.algo.simulate.simulate as sim_mod
         self.np, self.sim_mod, self.model = np, sim_mod, model
         self.normal_calls = []      # (size, result)
+        self.normal_args = []       # (loc, scale) of the same calls
         self.rvs = []               # dict(mu, var, adj, a, b, y) per feature
         self.estimate_out = None
         self.timepoints = None
@@ -533,6 +544,7 @@ class Recorder:
                 if rec.n_scalar > rec.scalar_budget:
                     raise Recorder.Budget(f"more than {rec.scalar_budget} scalar draws")
             rec.normal_calls.append((size, r))
+            rec.normal_args.append((k.get("loc", a[0] if len(a) > 0 else 0.0), k.get("scale", a[1] if len(a) > 1 else 1.0)))
             return r
 
         class BetaProxy:
@@ -841,6 +853,51 @@ def expected_precision(d):
     return 3
 
 
+def tape_replay(d, nsrc, rec):
+    """From-scratch recomputation (binary64, numpy scalars) of the requested visit ages from the TAPE of numpy.random.normal: the values
+    the successive calls returned.  Also checks which call was made (location, scale, size).  -> (requested per id, problem | None)"""
+    import numpy as np
+    P = d["params"]
+    ids = requested_ids(d)
+    n = len(ids)
+    calls = list(zip(rec.normal_calls, rec.normal_args))
+    pos = [0]
+
+    def take(size, loc=None, scale=None):
+        if pos[0] >= len(calls):
+            raise LookupError("the tape is shorter than the documented generation")
+        (sz, r), (lo, sc) = calls[pos[0]]
+        pos[0] += 1
+        if (sz is None) != (size is None) or (size is not None and int(sz) != size):
+            raise LookupError(f"call {pos[0] - 1}: size {sz}, documented {size}")
+        if loc is not None and (float(lo) != float(loc) or float(sc) != float(scale)):
+            raise LookupError(f"call {pos[0] - 1}: normal({float(lo)}, {float(sc)}), documented normal({float(loc)}, {float(scale)})")
+        return np.float64(r) if size is None else np.asarray(r, dtype=np.float64).reshape(-1)
+    try:
+        take(n)                        # xi
+        tau = take(n)
+        for _ in range(nsrc):
+            take(n, 0.0, 1.0)
+        if d["visit_type"] != "random":
+            req = {i: [np.float64(t) for j, t in P["df_visits"][3] if j == i] for i in ids}
+        else:
+            base = tau + take(n, P["first_visit_mean"][1], P["first_visit_std"][1])
+            fu = base + np.abs(take(n, P["time_follow_up_mean"][1], P["time_follow_up_std"][1]))
+            req = {}
+            for k, i in enumerate(ids):
+                t = base[k]
+                ages = [t]
+                while t < fu[k]:
+                    t = t + take(None, P["distance_visit_mean"][1], P["distance_visit_std"][1])
+                    ages.append(t)
+                req[i] = ages
+        if pos[0] != len(calls):
+            raise LookupError(f"{len(calls) - pos[0]} more numpy.random.normal calls than the documented generation makes")
+    except LookupError as e:
+        return None, str(e)
+    return req, None
+
+
 def check_result(run: Run, d, shape, seed, res, rec, info):
     """Property oracles on one completed run; returns the recorded rows for the model correspondence."""
     import numpy as np
@@ -893,6 +950,26 @@ def check_result(run: Run, d, shape, seed, res, rec, info):
                 bad("result:generated-ages", f"ages of an individual are not the generated visit ages rounded to {p} decimals "
                     "(the documented precision for this spacing)", want, got)
                 break
+    if ok and rec is not None and rec.timepoints is not None and len(rec.normal_args) == len(rec.normal_calls):
+        # the whole generation recomputed from the tape of draws: baseline = tau + N(first_visit_mean, first_visit_std), follow-up = baseline +
+        # |N(time_follow_up_mean, time_follow_up_std)|, one N(distance_visit_mean, distance_visit_std) per further visit until the follow-up age is
+        # passed; the table's ages per ID for a table; rounded to the documented precision, duplicates dropped, sorted — compared exactly
+        req, why = tape_replay(d, shape[1], rec)
+        if req is None:
+            bad("generation:draws", "the draws made are not the documented ones (which distribution parameters, how many, in which order)", None, why)
+        else:
+            got_req = {str(k): [float(t) for t in v] for k, v in rec.timepoints.items()}
+            for i in want_ids:
+                if [float(t) for t in req[i]] != got_req.get(i):
+                    bad("generation:requested-ages", "the visit ages generated for an individual are not those the tape of draws gives", 
+                        [float(t) for t in req[i]][:12], (got_req.get(i) or [])[:12])
+                    break
+                want = sorted({float(np.round(np.float64(t), p)) for t in req[i]})
+                got = df.loc[df["ID"].astype(str) == i, "TIME"].to_numpy(dtype=float).tolist()
+                if want != got:
+                    bad("generation:returned-ages", f"the returned ages of an individual are not the ages the tape of draws gives, rounded to {p} decimals, "
+                        "duplicates dropped, sorted", want[:12], got[:12])
+                    break
     if d["visit_type"] == "dataframe" and ok:
         rows = d["params"]["df_visits"][3]
         for i in want_ids:
@@ -1008,11 +1085,82 @@ LOOP_CHECKER = ("(fun c => match c with (t0, fu, steps, ages) => match visit_age
                 "&& match steps with [] => true | _ => match visit_ages t0 fu (removelast steps) with None => true | Some _ => false end end end)")
 
 
+def hexf(x) -> str:
+    x = float(x)
+    if x != x:
+        return "nan%float"
+    if x in (float("inf"), float("-inf")):
+        return "infinity%float" if x > 0 else "neg_infinity%float"
+    return f"({x.hex()})%float"
+
+
+HDR_GEN = ("From Coq Require Import ZArith QArith Bool List String PrimFloat.\n"
+           "From Leaspy Require Import Base.QAux Api.Simulate Api.SimulateGen Api.SimulateGenFloat.\n"
+           "From LeaspyGen Require Import GenC18.\nImport ListNotations.\n")
+GEN_CASE_T = "model_shape * design * valuation * list (draw float) * observed"
+GEN_CHECKER = ("(fun c => match c with (m, d, v, tp, ob) => check_generation gen_rounding_options gen_precision_init gen_default_spacing "
+               "model_prog m d v tp ob end)")
+
+
+def requested_ids(d):
+    if d["visit_type"] == "random":
+        return [str(i) for i in range(d["params"]["patient_number"][1])]
+    out = []
+    for i, _ in d["params"]["df_visits"][3]:
+        if i not in out:
+            out.append(i)
+    return out
+
+
+def generation_case(d, shape, model, res, rec, limit=700):
+    """One completed call as a case of SimulateGenFloat.check_generation: the design, the values the symbolic parameters of the draws
+    stand for, the TAPE (values returned by the successive numpy.random.normal calls, binary64 bits) and what the implementation
+    produced (requested ages, returned ages, the calls with their arguments)."""
+    import numpy as np
+    if rec.timepoints is None or len(rec.normal_args) != len(rec.normal_calls):
+        return "unrecorded"
+    if sum(1 if s is None else int(s) for s, _ in rec.normal_calls) > limit:
+        return "big"
+    tape, rcalls = [], []
+    for (size, r), (loc, scale) in zip(rec.normal_calls, rec.normal_args):
+        if size is None:
+            tape.append(f"DScal {hexf(r)}")
+            rcalls.append(f"({coq_Q(float(loc))}, {coq_Q(float(scale))}, None)")
+        else:
+            tape.append("DVec " + coq_list(hexf(x) for x in np.asarray(r, dtype=float).reshape(-1)))
+            rcalls.append(f"({coq_Q(float(loc))}, {coq_Q(float(scale))}, Some {int(size)}%nat)")
+    val = []
+    for kind, table in (("hyper", model.hyperparameters), ("model", model.parameters)):
+        for k, v in table.items():
+            try:
+                val.append(f"({coq_string(kind)}, {coq_string(str(k))}, {coq_Q(float(v))})")
+            except (TypeError, ValueError, RuntimeError):
+                pass
+    for k, v in d["params"].items():
+        if v[0] in ("int", "float", "bool"):
+            val.append(f"({coq_string('study')}, {coq_string(k)}, {coq_Q(float(v[1]))})")
+    p = expected_precision(d)
+    ids = requested_ids(d)
+    req = {str(k): v for k, v in rec.timepoints.items()}
+    df = res.data.to_dataframe()
+    requested, keys, ages = [], [], []
+    for i in ids:
+        requested.append(f"({coq_string(i)}, {coq_list(hexf(t) for t in req.get(i, []))})")
+        ts = [float(t) for t in df.loc[df["ID"].astype(str) == i, "TIME"].to_numpy(dtype=float)]
+        keys.append(f"({coq_string(i)}, {coq_list(coq_Z(int(round(t * 10 ** p))) for t in ts)})")
+        ages.append(f"({coq_string(i)}, {coq_list(hexf(t) for t in ts)})")
+    ob = (f"{{| ob_precision := {coq_Z(p)}; ob_requested := {coq_list(requested)}; ob_keys := {coq_list(keys)}; "
+          f"ob_ages := {coq_list(ages)}; ob_calls := {coq_list(rcalls)} |}}")
+    return (f"({{| dimension := {shape[0]}; source_dimension := {shape[1]} |}}, {design_coq(d)}, {coq_list(val)}, "
+            f"{coq_list(tape)}, {ob})")
+
+
 def runs(run: Run, thorough: bool):
     models = build_models(run, thorough)
     seeds = [run.seed % 100000, (run.seed // 7) % 100000 + 1] + ([11, 12] if thorough else [])
     out_cases, out_meta = [], []
     row_cases, row_meta, noise, noise_meta, loops, loop_meta = [], [], [], [], [], []
+    gen_cases, gen_meta, gen_big = [], [], 0
     skipped_ties = skipped_big = 0
     for mi, (model, shape, info) in enumerate(models):
         rng = run.rng("designs", mi)
@@ -1078,6 +1226,14 @@ def runs(run: Run, thorough: bool):
                         run.broken("record:draws", "normal draws of _generate_visit_ages could not be attributed", kind="broken-correspondence")
                     else:
                         loops += lc; loop_meta += [inp] * len(lc)
+                gc = generation_case(d, shape, model, res, rec)
+                if gc == "unrecorded":
+                    run.broken("record:generation", "numpy.random.normal calls / _generate_visit_ages were not observed as expected", kind="broken-correspondence")
+                elif gc == "big":
+                    gen_big += 1
+                else:
+                    gen_cases.append(gc); gen_meta.append(inp)
+                    run.count("generation-tape", d["visit_type"])
                 if len(run.samples) < 4 and kind != "directed":
                     run.sample(dict(kind="run", **inp, outcome=o, n_rows=int(len(res.data.to_dataframe())), precision=expected_precision(d)))
         # non-termination: negative mean step (accepted by the constructor)
@@ -1116,6 +1272,12 @@ def runs(run: Run, thorough: bool):
     bad = run.vm_bad_indices("loop", HDR, "Q * Q * list Q * list Q", loops, LOOP_CHECKER, shard=60)
     for i in bad or []:
         run.fail("visit-loop", "generated visit ages differ from the loop model (t0; while t < follow_up: t += step)", dict(loop_meta[i], case=loops[i][:400]))
+    run.log("generation")
+    bad = run.vm_bad_indices("generation", HDR_GEN, GEN_CASE_T, gen_cases, GEN_CHECKER, shard=12)
+    for i in bad or []:
+        run.fail("generation:tape-replay", "the generation model (regenerated program, binary64) re-executed inside Coq on the recorded tape of numpy.random.normal "
+                 "does not reproduce the call: precision, requested ages, returned ages (integers and bits), calls made or draws consumed differ", gen_meta[i])
+    run.extra.update(generation_cases=len(gen_cases), generation_cases_over_700_draws_skipped=gen_big)
     run.extra.update(outcome_cases=len(out_cases), row_cases=len(row_cases), noise_cases=len(noise), loop_cases=len(loops))
 
 
@@ -1146,7 +1308,8 @@ def check(run: Run):
     run.rule = ("(C) exhaustive 3^8 grid of {good, wrong sign/type but comparable, missing or uncomparable} over the 8 random-design fields "
                 "(representative drawn per class), the full sign grid of the final distance rule, 16 feature shapes x 6 designs, 9 visit-table shapes; "
                 "(D) model.simulate on logistic models (1-4 features, 0-2 sources, scalar/diagonal noise) x random / table / directed designs x seeds; "
-                "non-trivial = constructor does not accept, or min_spacing given, or a run that raised or drew noise; distinct by canonical design+model+seed.")
+                "non-trivial = constructor does not accept, or min_spacing given, or a run that raised or drew noise; distinct by canonical design+model+seed; "
+                "every completed call (<= 700 draws) is also a generation case: its recorded tape re-executed inside Coq.")
     run.log("constructor decision table")
     decision_table(run, thorough)
     run.log("rounding unit correspondence")
@@ -1159,6 +1322,8 @@ def main(run: Run):
     ok_t = translate(run)
     ok_p = run.prove("C18", OBLIGATIONS) if ok_t else False
     run.assumptions += [
+        "the values returned by numpy.random.normal are the tape of the generation model (their distribution is numpy's); the generation theorems "
+        "are stated for the tapes on which the generation ends (GOk): a tape too short is GExhausted (visit loop not terminated)",
         "scipy.stats.beta.rvs is defined and returns values in [0,1] whenever both parameters are positive (hypothesis of C18_values_in_unit)",
         "model values returned by estimate are taken from the implementation (any rational is covered by the theorems)",
         "float32/float64 rounding is outside the theorems; comparisons use stated tolerances, requested ages within 1e-6 of a rounding tie are skipped",
